@@ -21,6 +21,7 @@ import traceback
 HERE = os.path.dirname(os.path.abspath(__file__))
 sys.path.insert(0, HERE)
 REPO = os.environ.get("VERIF_REPO", "/repo")
+sys.path.insert(1, REPO)   # native replays / stand-ins import the tree under check (the editable install points to /repo)
 
 from registry import PROPERTIES  # noqa: E402
 
@@ -150,6 +151,9 @@ def main():
     for ob in all_obs:
         if ob["status"] == "PROVED":
             continue
+        if ob["status"] == "VACUOUS":
+            errors.append(f"vacuous path {ob['name']}: {ob.get('reason')}")
+            continue
         if ob["status"] in ("UNDECIDED", "UNSUPPORTED"):
             undecided.append(ob)
             continue
@@ -245,6 +249,7 @@ def main():
         "obligations_by_backend": backends,
         "solver_time_s": solver_time,
         "paths": sum(r["stats"].get("paths", 0) for r in results),
+        "canaries_not_provable": sum(r["stats"].get("canaries", 0) for r in results),
         "sigma_theory": {k: sum(r["stats"].get("theory", {}).get(k, 0) for r in results)
                          for k in ("regions", "premise_queries", "facts", "analyses")},
         "not_proved": [{"name": o["name"], "status": o["status"], "reason": o.get("reason"), "n": o.get("n")}
